@@ -32,126 +32,227 @@ def _truth(k, v):
     return k, (bool(v) != neg)
 
 
+def _rng(E, it, v, length):
+    """(start, end) of a std range value applied to a buffer of `length` bytes"""
+    v = it.resolve(v)
+    if v is None or v[0] != "adt":
+        return None
+    nm = v[1].split("::")[-1]
+
+    def g(i):
+        return v[3][i][1] if i in v[3] and E.is_int(v[3][i]) else None
+    if nm.startswith("RangeFull"):
+        return (0, length)
+    if nm.startswith("RangeToInclusive"):
+        return (0, None if g(0) is None else g(0) + 1)
+    if nm.startswith("RangeTo"):
+        return (0, g(0))
+    if nm.startswith("RangeFrom"):
+        return (g(0), length)
+    if nm.startswith("RangeInclusive"):
+        return (g(0), None if g(1) is None else g(1) + 1)
+    if nm.startswith("Range"):
+        return (g(0), g(1))
+    return None
+
+
+def eval_decode(f, L, fl, parse_ok):
+    """SyncCodec::decode evaluated (K6') on a buffer of L bytes whose first four bytes declare a frame of fl bytes.
+    The buffer is modelled: len, index/get with any std range (an out-of-bounds index PANICS = diverges), advance /
+    split_to, the length prefix, the postcard parse. Returns (rendered result, {consumed, parsed, reads})."""
+    from . import feval as E
+    st = {"consumed": 0, "parsed": [], "reads": []}
+
+    def oracle(kind, name, payload, site):
+        if kind != "call":
+            return None
+        t, args, it = payload
+        names = [it.tokname(a) for a in args]
+        cur = L - st["consumed"]
+        m0 = re.fullmatch(r"src\[(\d+)\.\.(\d+)\]", names[0]) if names else None
+        if name in ("len", "remaining") and names and names[0] == "src":
+            return E.Int(cur)
+        if name == "len" and m0:
+            return E.Int(int(m0.group(2)) - int(m0.group(1)))
+        if name == "is_empty" and names and names[0] == "src":
+            return E.Int(1 if cur == 0 else 0)
+        if name in ("index", "get", "index_mut", "get_mut") and names and (names[0] == "src" or m0) and len(args) == 2:
+            base, blen = (0, cur) if names[0] == "src" else (int(m0.group(1)), int(m0.group(2)) - int(m0.group(1)))
+            r = _rng(E, it, args[1], blen)
+            if r is None or r[0] is None or r[1] is None:
+                raise E.Unsupported("slice of the input buffer with an undetermined range")
+            s0, e0 = r
+            inb = s0 <= e0 <= blen
+            st["reads"].append((base + s0, base + e0))
+            if name.startswith("get"):
+                return E.Some(E.Tok("src[%d..%d]" % (base + s0, base + e0))) if inb else E.NONE
+            if not inb:
+                return E.DIVERGE
+            return E.Tok("src[%d..%d]" % (base + s0, base + e0))
+        if name in ("deref", "deref_mut", "as_ref", "as_mut", "borrow", "chunk") and names and names[0] == "src":
+            return args[0]
+        if name in ("try_into", "try_from") and m0:
+            return E.Ok(E.Tok(names[0])) if int(m0.group(2)) - int(m0.group(1)) == 4 else E.Err(E.Tok("wrong-length"))
+        if name in ("split_first_chunk", "first_chunk") and names and names[0] == "src":
+            return E.Some(E.Tok("src[0..4]")) if cur >= 4 else E.NONE
+        if name == "from_be_bytes" and names[0] == "src[0..4]" and st["consumed"] == 0:
+            return E.Int(fl)
+        if name == "get_u32" and names[0] == "src":
+            if cur < 4:
+                return E.DIVERGE
+            st["consumed"] += 4
+            return E.Int(fl)
+        if name == "from_bytes" and callee_matches(t, r"postcard"):
+            st["parsed"].append(names[0])
+            return E.Ok(E.Tok("message")) if parse_ok else E.Err(E.Tok("postcard-error"))
+        if name in ("advance", "split_to") and names[0] == "src":
+            a = it.deref_val(args[1])
+            if not E.is_int(a):
+                raise E.Unsupported("%s by an undetermined amount" % name)
+            if a[1] > cur:
+                return E.DIVERGE
+            st["consumed"] += a[1]
+            return E.UNIT if name == "advance" else E.Tok("src[0..%d]" % a[1])
+        if name == "reserve":
+            return E.UNIT
+        return None
+    try:
+        ret, hp, ev = E.run(f, DEC, [E.href("self"), E.href("src")], {"self": E.Tok("codec"), "src": E.Tok("src")}, oracle)
+        if ret is not None and ret[0] == "diverge":
+            return "PANIC(%s)" % (ret[1] if len(ret) > 1 else ""), st
+        return E.describe(ret, f), st
+    except E.Unsupported as e:
+        return "UNSUPPORTED-FORM: %s" % e, st
+
+
+def eval_encode(f, start, n):
+    """SyncCodec::encode evaluated (K6') on an output buffer already holding `start` bytes, for a message whose
+    serialised size is n. Returns (rendered result, {len, prefix, payload})."""
+    from . import feval as E
+    st = {"len": start, "prefix": None, "payload": None, "writes": []}
+
+    def oracle(kind, name, payload, site):
+        if kind != "call":
+            return None
+        t, args, it = payload
+        names = [it.tokname(a) for a in args]
+        if name == "serialize_with_flavor" or (name in ("serialized_size",) and callee_matches(t, r"postcard")):
+            return E.Ok(E.Int(n))
+        if name in ("len",) and names and names[0] == "dst":
+            return E.Int(st["len"])
+        if name in ("try_from", "try_into") and args and E.is_int(it.deref_val(args[0])):
+            v = it.deref_val(args[0])[1]
+            return E.Ok(E.Int(v)) if v < (1 << 32) else E.Err(E.Tok("overflow"))
+        if name in ("put_u32", "put_u32_be") and names[0] == "dst":
+            v = it.deref_val(args[1])
+            st["prefix"] = (st["len"], v[1] if E.is_int(v) else E.describe(v, f))
+            st["len"] += 4
+            return E.UNIT
+        if name in ("put_slice", "extend_from_slice") and names[0] == "dst":
+            st["writes"].append((st["len"], names[1]))
+            if names[1].startswith("be_bytes("):
+                st["prefix"] = (st["len"], int(names[1][9:-1]))
+                st["len"] += 4
+            return E.UNIT
+        if name == "to_be_bytes" and args and E.is_int(it.deref_val(args[0])):
+            return E.Tok("be_bytes(%d)" % it.deref_val(args[0])[1])
+        if name == "resize" and names[0] == "dst":
+            v = it.deref_val(args[1])
+            if not E.is_int(v):
+                raise E.Unsupported("resize to an undetermined length")
+            st["len"] = v[1]
+            return E.UNIT
+        if name == "reserve":
+            return E.UNIT
+        if name in ("index_mut", "index", "get_mut") and names and names[0] == "dst":
+            r = _rng(E, it, args[1], st["len"])
+            if r is None or r[0] is None or r[1] is None:
+                raise E.Unsupported("slice of the output buffer with an undetermined range")
+            if not (r[0] <= r[1] <= st["len"]):
+                return E.DIVERGE if not name.startswith("get") else E.NONE
+            tok = E.Tok("dst[%d..%d]" % r)
+            return E.Some(tok) if name.startswith("get") else tok
+        if name in ("deref_mut", "deref", "as_mut") and names and names[0] == "dst":
+            return args[0]
+        if name in ("to_slice", "to_extend", "to_io") and callee_matches(t, r"postcard"):
+            st["payload"] = names[1]
+            return E.Ok(E.Tok("written"))
+        return None
+    try:
+        ret, hp, ev = E.run(f, ENC, [E.href("self"), E.Tok("message"), E.href("dst")], {"self": E.Tok("codec"), "dst": E.Tok("dst")}, oracle)
+        if ret is not None and ret[0] == "diverge":
+            return "PANIC(%s)" % (ret[1] if len(ret) > 1 else ""), st
+        return E.describe(ret, f), st
+    except E.Unsupported as e:
+        return "UNSUPPORTED-FORM: %s" % e, st
+
+
+def codec_tables(f):
+    """[(key, ok, detail)] of the decoder grid and the encoder grid"""
+    MAX = f.const("net::codec::MAX_MESSAGE_SIZE")["val"]
+    out = []
+    bad = []
+    n = 0
+    for fl in (0, 1, 10, MAX, MAX + 1, (1 << 32) - 1):
+        for L in (0, 1, 3, 4, 5, 13, 14, 15, 40):
+            for parse_ok in (1, 0):
+                n += 1
+                got, st = eval_decode(f, L, fl, parse_ok)
+                if L < 4:
+                    want, cons, parsed = "Ok(None)", 0, []
+                elif fl > MAX:
+                    want, cons, parsed = "Err", 0, []
+                elif L < 4 + fl:
+                    want, cons, parsed = "Ok(None)", 0, []
+                elif parse_ok:
+                    want, cons, parsed = "Ok(Some(message))", 4 + fl, ["src[4..%d]" % (4 + fl)]
+                else:
+                    want, cons, parsed = "Err", None, ["src[4..%d]" % (4 + fl)]
+                ok = (got == want or (want == "Err" and got.startswith("Err"))) and (cons is None or st["consumed"] == cons) and st["parsed"] == parsed
+                if not ok:
+                    bad.append("buffer %d bytes, declared frame %d, parse %s: %s, consumed %d, parsed %s; spec %s, consumed %s, parsed %s" % (L, fl, "ok" if parse_ok else "fails", got, st["consumed"], st["parsed"], want, cons, parsed))
+    out.append(("decode-table", not bad, "decode evaluated on %d (buffer length, declared frame length, parse outcome) cells, MAX = %d; deviating: %s; spec: wait (Ok(None), nothing consumed) while the prefix or the declared frame is incomplete, "
+                "Err for a declared length above MAX, otherwise parse exactly src[4..4+len] and consume exactly 4+len on success; a panic is a violation" % (n, MAX, bad[:4])))
+    bad = []
+    n = 0
+    for start in (0, 9):
+        for ln in (0, 7, MAX, MAX + 1):
+            n += 1
+            got, st = eval_encode(f, start, ln)
+            if ln > MAX:
+                ok = got.startswith("Err") and st["len"] == start and st["prefix"] is None and st["payload"] is None
+                spec = "Err, nothing written"
+            else:
+                ok = got == "Ok(())" and st["prefix"] == (start, ln) and st["len"] == start + 4 + ln and st["payload"] == "dst[%d..%d]" % (start + 4, start + 4 + ln)
+                spec = "prefix %d at offset %d, payload in dst[%d..%d]" % (ln, start, start + 4, start + 4 + ln)
+            if not ok:
+                bad.append("buffer already holds %d bytes, message of %d bytes: %s, prefix (offset, value) %s, final length %d, payload written to %s; spec: %s" % (start, ln, got, st["prefix"], st["len"], st["payload"], spec))
+    out.append(("encode-table", not bad, "encode evaluated on %d (bytes already in the buffer, message size) cells; deviating: %s; spec: the frame is APPENDED: u32 length at the old end, payload right after it, nothing before it touched; oversized => Err before writing" % (n, bad[:4])))
+    return out
+
+
 def r1(ctx):
     f = ctx.facts
     d = f.body(DEC)
-    ctx.touch(d)
+    ctx.touch(*f.scope(DEC, prefix="net::codec::"))
     c = f.const("net::codec::MAX_MESSAGE_SIZE")
     ctx.check(c["val"] is not None and c["val"] <= 0xFFFFFFFF, "C09.R1", "net::codec::MAX_MESSAGE_SIZE", "fits-length-prefix", "= %s <= u32::MAX" % c["val"], c["sp"])
-    n_parse = 0
-    for p in P.explore(d):
-        calls = P.calls(p)
-        if "from_bytes" not in calls:
-            # no parse: must not consume
-            ctx.check("advance" not in calls and "split_to" not in calls, "C09.R1", DEC, "no-consume-without-parse[%s]" % P.short(p.ret)[:20], "calls %s" % [x for x in calls if x in ("advance", "split_to")], d.sp)
-            continue
-        n_parse += 1
-        have4 = sized = avail = None
-        for k, v in p.decisions:
-            kk, tv = _truth(k, v)
-            if kk[0] != "cmp":
-                continue
-            a, b2, op = kk[2], kk[3], kk[1]
-            if "len(arg:src)" in a and P.const_of_key(b2) == 4:
-                have4 = (op == "<" and not tv) or (op == ">=" and tv)
-            elif "MAX_MESSAGE_SIZE" in b2 and "from_be_bytes" in a:
-                sized = (op == "<=" and tv) or (op == ">" and not tv)
-            elif "MAX_MESSAGE_SIZE" in a and "from_be_bytes" in b2:
-                sized = (op == ">=" and tv) or (op == "<" and not tv)
-            elif "len(arg:src)" in a and P.const_of_key(b2) is None:
-                avail = (op == "<" and not tv) or (op == ">=" and tv)
-        ctx.check(bool(have4) and bool(sized) and bool(avail), "C09.R1", DEC, "parse-guarded[%s]" % P.short(p.ret)[:24],
-                  "parse path passed: len>=4 %s, frame_len<=MAX %s, len>=4+frame_len %s" % (have4, sized, avail), d.sp)
-        # consume only after successful parse
-        if "advance" in calls:
-            okc = calls.index("advance") > calls.index("from_bytes") and p.ret[0] == "variant" and p.ret[1] == "Ok"
-            ctx.check(okc, "C09.R1", DEC, "consume-after-successful-parse", "advance follows from_bytes on the Ok path", d.sp)
-    if n_parse < 2:
-        raise mir.AnchorMissing("decode: expected the parse on >=2 paths, found %d" % n_parse)
-    # the availability bound is 4 + frame_len and the slice parsed is [4 .. 4+frame_len]
-    def is_frame_end(op):
-        """operand = 4 + frame_len (possibly through a shared local)"""
-        for o in trace(d, op, through_calls=False):
-            if o.kind == "expr" and o.data[0] == "bin" and o.data[1] in ("Add", "AddWithOverflow"):
-                ops = [o.data[2], o.data[3]]
-                has4 = any(x[0] == "const" and x[1].get("val") == 4 for x in ops)
-                haslen = any(x[0] != "const" and any(y.kind == "call" and y.data["f"].get("name") == "from_be_bytes" for y in leaves(d, x, expand_calls=False)) for x in ops)
-                if has4 and haslen:
-                    return True
-        return False
-    uses = {}
-    for c in comparisons(d):
-        if any(o.kind == "call" and o.data["f"].get("name") == "len" for o in trace(d, c["a"], through_calls=False)) and c["b"][0] != "const":
-            uses["availability-test"] = is_frame_end(c["b"])
-    for bi, t in d.calls():
-        if t["f"].get("name") == "advance":
-            uses["advance"] = is_frame_end(t["a"][1])
-    ctx.check(uses.get("availability-test") is True and uses.get("advance") is True, "C09.R1", DEC, "bounds-are-4+frame_len",
-              "availability test and advance use 4 + frame_len: %s" % uses, d.sp)
-    # the bytes handed to the parser are exactly the declared frame: src[4 .. 4 + frame_len]
-    fb = [(bi, t) for bi, t in d.calls() if t["f"].get("name") == "from_bytes"]
-    okslice = False
-    det = "no from_bytes call"
-    if len(fb) == 1:
-        det = "parser input is not an index of src with a closed range"
-        for o in trace(d, fb[0][1]["a"][0], through_calls=False):
-            if o.kind == "call" and o.data["f"].get("name") == "index":
-                full = o.data["f"].get("full", "")
-                rng = o.data["a"][1]
-                lv = leaves(d, rng, expand_calls=False)
-                has4 = any(True for s2 in [0])
-                closed = "ops::Range<usize>" in full and "RangeFrom" not in full
-                end_from_len = any(x.kind == "call" and x.data["f"].get("name") == "from_be_bytes" for x in lv)
-                okslice = closed and end_from_len
-                det = "parser input = src[%s] (closed range: %s, end derives from the length prefix: %s)" % (full.split("Index<")[-1].split(">")[0] if "Index<" in full else "?", closed, end_from_len)
-    ctx.check(okslice, "C09.R1", DEC, "parses-exactly-the-declared-frame", det, fb[0][1]["sp"] if fb else d.sp)
-    # too-large frames return Err
-    errs = [p for p in P.explore(d) if p.ret[0] == "variant" and p.ret[1] == "Err"]
-    ok = any(any("MAX_MESSAGE_SIZE" in str(k) for k, v in p.decisions) for p in errs)
-    ctx.check(ok, "C09.R1", DEC, "oversized-frame-is-error", "a frame longer than MAX_MESSAGE_SIZE returns Err (not Ok(None), which would wait forever)", d.sp)
-    e = f.body(ENC)
-    ctx.touch(e)
-    ok = False
-    for p in P.explore(e):
-        if p.ret[0] == "variant" and p.ret[1] == "Err" and any("MAX_MESSAGE_SIZE" in str(k) for k, v in p.decisions):
-            ok = "put_u32" not in P.calls(p)
-    ctx.check(ok, "C09.R1", ENC, "encode-rejects-oversized-before-writing", "len > MAX_MESSAGE_SIZE returns Err before anything is written", e.sp)
-    ctx.floor("C09.R1", 7)
+    for key, ok, detail in codec_tables(f):
+        if key == "decode-table":
+            ctx.check(ok, "C09.R1", DEC, key, detail, d.sp)
+    ctx.floor("C09.R1", 2)
 
 
 def r2(ctx):
     f = ctx.facts
     e = f.body(ENC)
-    n = 0
-    for bi, t in e.calls():
-        nm = t["f"].get("name")
-        if nm in ("index_mut", "index") and "Range" in t["f"].get("full", ""):
-            recv = {origin_summary(o) for o in trace(e, t["a"][0])}
-            if recv != {"arg:dst"}:
-                continue
-            n += 1
-            lv = leaves(e, t["a"][1], expand_calls=False)
-            rel = any(o.kind == "call" and o.data["f"].get("name") == "len" and {origin_summary(x) for x in trace(e, o.data["a"][0])} == {"arg:dst"} for o in lv)
-            ctx.check(rel, "C09.R2", ENC, "payload-offset-relative-to-entry-length",
-                      "the payload is written at an offset derived from dst.len() at entry" if rel else
-                      "the payload is written at a constant absolute offset of dst: whenever dst is not empty at entry (the Encoder contract allows it: "
-                      "frames are appended to the write buffer) the length prefix is appended at the end while the payload overwrites earlier bytes", t["sp"])
-        if nm == "resize":
-            recv = {origin_summary(o) for o in trace(e, t["a"][0])}
-            if recv != {"arg:dst"}:
-                continue
-            n += 1
-            lv = leaves(e, t["a"][1], expand_calls=False)
-            rel = any(o.kind == "call" and o.data["f"].get("name") == "len" for o in lv)
-            ctx.check(rel, "C09.R2", ENC, "resize-relative-to-entry-length", "resize target derives from dst.len()" if rel else "resize target is an absolute length (4 + len)", t["sp"])
-    if n < 1:
-        # an append-only encoder (extend_from_slice / put_slice) has no indexing at all
-        app = [t for _, t in e.calls() if t["f"].get("name") in ("extend_from_slice", "put_slice", "put", "writer")]
-        ctx.check(bool(app), "C09.R2", ENC, "append-only", "no indexing into dst; payload appended with %s" % [t["f"].get("name") for t in app], e.sp)
+    ctx.touch(*f.scope(ENC, prefix="net::codec::"))
+    for key, ok, detail in codec_tables(f):
+        if key == "encode-table":
+            ctx.check(ok, "C09.R2", ENC, key, detail, e.sp)
     ctx.floor("C09.R2", 1)
 
 
-# ---------------------------------------------------------------- K11 audit
 AUDIT_SCOPE = re.compile(
     r"^(sync::(RecordIdentifier|Record|Entry|SignedEntry|EntrySignature|Capability)::|<sync::(RecordIdentifier|Record|Entry|SignedEntry|EntrySignature|Capability) as |"
     r"heads::AuthorHeads::decode|ticket::|<ticket::|<store::FilterKind as std::str::FromStr>|net::codec::|<net::codec::|net::handle_connection|net::connect_and_sync|"
@@ -251,6 +352,8 @@ def panic_audit(ctx, rule="C09.R3", only=None):
     inv_ok = None
     n = 0
     counters = {}
+    evaluated = {x.path for root in (DEC, ENC) for x in f.scope(root, prefix="net::codec::")}
+    codec_ok = all(ok for _, ok, _ in codec_tables(f))
     for b in sorted(f.bodies.values(), key=lambda x: x.path):
         if not AUDIT_SCOPE.search(b.path) or b.rec.get("derived") or "_serde" in b.path:
             continue
@@ -260,6 +363,17 @@ def panic_audit(ctx, rule="C09.R3", only=None):
         if not sites:
             continue
         ctx.touch(b)
+        if b.path in evaluated:
+            # the codec functions (and their private helpers) are decided by evaluation over a buffer model in which
+            # every out-of-bounds index, failed unwrap/expect and over-long advance diverges: a panic there fails C09.R1/R2
+            for bi, t, cls in sites:
+                n += 1
+                short = (t["f"].get("name") if t["k"] == "call" else "BoundsCheck")
+                idx = counters.get((b.path, cls + short), 0)
+                counters[(b.path, cls + short)] = idx + 1
+                ctx.check(codec_ok, rule, b.path, "%s.%s#%d" % (cls, short, idx), "discharged by the evaluated decoder/encoder tables (C09.R1/R2), where a panic on any cell is a violation" if codec_ok
+                          else "panic site in a codec function whose evaluated table does not hold", t["sp"])
+            continue
         ts_cache = {}
         for bi, t, cls in sites:
             n += 1
@@ -340,10 +454,10 @@ def panic_audit(ctx, rule="C09.R3", only=None):
                         ctx.ok(rule, b.path, role, "discharged: dst was resized to hold prefix + payload on the only path where it was shorter", t["sp"])
                         continue
             ctx.bad(rule, b.path, role, "UNAUDITED-PANIC-SITE: %s on data that can come from the wire, with no dominating length guard, type invariant, typestate or table entry" % callee, t["sp"])
-    if only is None and n < 25:
-        raise mir.AnchorMissing("panic-site inventory found %d sites, fewer than the 25 confirmed by hand" % n)
-    if only is not None and n < 8:
-        raise mir.AnchorMissing("panic-site inventory (session functions) found %d sites, fewer than the 8 confirmed by hand" % n)
+    if only is None and n < 18:
+        raise mir.AnchorMissing("panic-site inventory found %d sites, fewer than 18 (30 confirmed by hand on the pinned tree)" % n)
+    if only is not None and n < 4:
+        raise mir.AnchorMissing("panic-site inventory (session functions) found %d sites, fewer than 4 (8 confirmed by hand on the pinned tree)" % n)
     ctx.floor(rule, 8)
 
 
